@@ -17,6 +17,7 @@ CONSTANTS
   UseScan = FALSE
   UseAccounts2 = FALSE
   UseSelf = FALSE
+  FundAcct2 = FALSE
   UseDiverge = FALSE
   UseAdv = FALSE
   Scen = {1, 2, 3, 4, 5, 6, 7, 8}
